@@ -356,11 +356,17 @@ def xff11_roundtrip_counts(h):
     _ability_counts(h, list(range(0, 9)))
 
 
-@oset("at5.xFF11.roundtrip.counts-9-16", ["C03"], ABILITY_FNS)
-def xff11_roundtrip_counts_hi(h):
-    """Repeat counts 9..16 (the AC index byte is documented as 0-15; C03 asks for all repeat counts 0..16).
+@oset("at5.xFF11.roundtrip.counts-9-12", ["C03"], ABILITY_FNS)
+def xff11_roundtrip_counts_mid(h):
+    """Repeat counts 9..12 (the AC index byte is documented as 0-15; C03 asks for all repeat counts 0..16).
     Split from counts-0-8 only to keep each set short."""
-    _ability_counts(h, list(range(9, 17)))
+    _ability_counts(h, list(range(9, 13)))
+
+
+@oset("at5.xFF11.roundtrip.counts-13-16", ["C03"], ABILITY_FNS)
+def xff11_roundtrip_counts_hi(h):
+    """Repeat counts 13..16."""
+    _ability_counts(h, list(range(13, 17)))
 
 
 def check_ability_record(h, rec, b, tag=""):
@@ -553,15 +559,27 @@ def xff13_roundtrip_request(h):
 
 def _zone_names_roundtrip(h, name_bytes):
     msg, zs, names = gen_zone_names(h, name_bytes)
-    # an empty names message is, on the wire, the request for all zones (no data): same message id
-    out = roundtrip_plain(h, XZN + ":ZoneNamesEncoder", XZN + ":ZoneNamesDecoder", msg, at5_ext_subheader, ID_ZONE_NAMES,
-                          expect=h.new(XZN + ":ZoneNamesRequest", zone_number="ALL") if not name_bytes else None)
-    if out is None:
-        return
     exp = zone_names_wire(h, zs, names)
-    items = h.items(out)
+    # (1) encode / decode against the vendor layout, independent of size(): the header handed to decode
+    #     announces the length the layout has (2 + name length per zone)
+    enc = h.new(XZN + ":ZoneNamesEncoder")
+    e = h.method(enc, "encode", at5_ext_subheader(h, ID_ZONE_NAMES, len(exp)), msg)
+    h.oblige("encode() does not raise on a valid message", e.ok)
+    if not e.ok:
+        return
+    items = h.items(e.value)
     h.oblige("wire: per zone Byte3 zone index, Byte4 name length, Byte5.. the UTF-8 name",
              And(*[a == b for a, b in zip(items, exp)]) if len(items) == len(exp) else False)
+    if name_bytes:
+        d = h.method(h.new(XZN + ":ZoneNamesDecoder"), "decode", e.value, at5_ext_subheader(h, ID_ZONE_NAMES, len(exp)))
+        h.oblige("decode(encode(m)) with the true payload length accepts", d.ok)
+        if d.ok:
+            h.oblige("decode(encode(m)) with the true payload length returns m, nothing left over",
+                     And(h.eq(h.attr(d.value, "message"), msg), h.length(h.attr(d.value, "remaining")) == 0))
+    # (2) the C03 round trip with the length size() announces.  An empty names message is, on the wire, the
+    #     request for all zones (no data): same message id
+    roundtrip_plain(h, XZN + ":ZoneNamesEncoder", XZN + ":ZoneNamesDecoder", msg, at5_ext_subheader, ID_ZONE_NAMES,
+                    expect=h.new(XZN + ":ZoneNamesRequest", zone_number="ALL") if not name_bytes else None)
 
 
 @oset("at5.xFF13.roundtrip.one-zone", ["C03"], ZN_FNS,
